@@ -708,9 +708,9 @@ impl XmlAttribute {
             self.values.borrow_mut().clear();
 
             for v in attr.borrow().values.borrow().as_slice() {
-                v.init_order_recursive();
                 v.set_parent_id(Some(self.id()));
             }
+            self.context().ordering.borrow_mut().invalidate();
 
             self.values
                 .borrow_mut()
